@@ -72,7 +72,9 @@ class _TabulationCutoff(object):
       cutoff = (nr-1)*dr      
     elif cutoff and dr:
       # Set nr
-      nr = (cutoff/dr) + 1
+      # cutoff/dr for a whole multiple can land just below the integer
+      # (0.7/0.1 = 6.999999999999999): add a small tolerance before truncating.
+      nr = (cutoff/dr) + 1 + 1e-8
       nr = int(nr)
     elif not dr is None:
       raise ConfigParserException("'{dr}' cannot be specified without either '{nr}' or '{cutoff}' in [Tabulation] section of potential definition.".format(**self._template_dict))
